@@ -7,7 +7,7 @@ effect on the peer record.
 Lines (answers after `→`):
   `new <section> …`                                  → `ok`   (`new fork <state> <head> <own P/E/? per height from 1>` sets the own chain)
   `cap <n|-> <gate 0/1>`                             → `ok` | `no-cap`      (decoded-length cap found in protocol.Decode)
-  `site <fn> <field> <unguarded dereferences> <expected> <class>`
+  `site <fn> <field> <kind field|call|star> <distinct unguarded access paths> <expected> <class>`
                                                      → `ok` | `unclassified` | `count-changed` | `not-modelled`
   `census-end <rows>`                                → `ok` | `stale-model:<fn>|<field>` (a modelled site no longer exists)
   `holders <t,…>`                                    → `ok` | `incomplete`
@@ -180,7 +180,7 @@ def step (st : DSt) (line : String) : DSt × String :=
   | ["cap", c, g] =>
     if c = "-" ∨ g ≠ "1" then (st, "no-cap") else
     match parseNat? c with | some _ => (st, "ok") | none => (st, "bad-op")
-  | ["site", fn, field, cnt, want, cls] =>
+  | ["site", fn, field, _kind, cnt, want, cls] =>
     match parseNat? cnt, parseNat? want with
     | some c, some w =>
       if cls = "unclassified" then (st, "unclassified")
